@@ -410,6 +410,20 @@ func genCase(r *rand.Rand) (Case, chooser) {
 		}
 		c.Tasks = append(c.Tasks, t)
 	}
+	// a share of cases carries ill-formed variable values: which error is reported
+	// must not depend on map iteration order or on the other tasks
+	if r.IntN(7) == 0 {
+		bad := 0
+		for _, v := range g.Prog.Vars {
+			if v.Fn == "" && (v.Type == "number" || v.Type == "monetary" || v.Type == "portion") && bad < 3 && r.IntN(2) == 0 {
+				garbage := []string{"abc", "12x", "", "USD", "7/0"}[r.IntN(5)] + fmt.Sprint(bad)
+				for i := range c.Tasks {
+					c.Tasks[i].Vars[v.Name] = garbage // same for every task: tasks may share one map instance
+				}
+				bad++
+			}
+		}
+	}
 	// schedule
 	if k == 1 {
 		return c, newRecorded(nil)
